@@ -204,6 +204,11 @@ class VttContext:
       self._paragraphs.pop()
       self._captions_counter -= 1
 
+    elif end is not None and self._paragraphs[-1].get_end().to_seconds() <= self._paragraphs[-1].get_begin().to_seconds():
+      LOGGER.warning("Removing paragraph shorter than one millisecond.")
+      self._paragraphs.pop()
+      self._captions_counter -= 1
+
   def add_isd(self, isd: ISD, begin: Fraction, end: Optional[Fraction]):
     """Converts and appends ISD content to VTT content"""
 
